@@ -118,7 +118,10 @@ M("C08", "drop-dump-funnel", "iodata/api.py", r'        except DumpError:\n     
 M("C08", "swallow-write-input", "iodata/api.py", r'            raise WriteInputError\(\n                "Uncaught exception while writing an input file\.", filename\n            \) from exc', "            pass", "C08-R2")
 M("C08", "later-frames-unchecked", "iodata/api.py", r"            _check_required\(filename, other, format_module\.dump_many\)\n", "", "C08-R3")
 M("C08", "required-removed", F + "cube.py", r'@document_dump_one\("Gaussian Cube", \["atcoords", "atnums", "cube"\]', '@document_dump_one("Gaussian Cube", ["atcoords", "atnums"]', "C08-R4")
-M("C08", "guard-wrong-error-class", F + "molden.py", r'raise PrepareDumpError\("The Molden format requires molecular orbitals\.", filename\)', 'raise DumpError("The Molden format requires molecular orbitals.", filename)', "C08-R5")
+T("C08", "guard-raises-dumperror-funnelled", F + "molden.py", r'raise PrepareDumpError\("The Molden format requires molecular orbitals\.", filename\)', 'raise DumpError("The Molden format requires molecular orbitals.", filename)')
+T("C08", "molden-mo-none-guard-dropped-still-an-error", F + "molden.py", r'    if data\.mo is None:\n        raise PrepareDumpError\("The Molden format requires molecular orbitals\.", filename\)\n', "")
+M("C08", "fchk-beta-aufbau-only-unrestricted", F + "fchk.py", r"        nb = int\(np\.round\(np\.sum\(data\.mo\.occsb\)\)\)\n        if not \(", "        nb = int(np.round(np.sum(data.mo.occsb)))\n        if data.mo.kind == \"unrestricted\" and not (", "C08-R5")
+M("C08", "wfx-pure-guard-dropped", F + "wfx.py", r'        if any\(kind != "c" for kind in shell\.kinds\):', '        if False:', "C08-R5")
 M("C08", "dumperror-drop-file", F + "molekel.py", r'raise DumpError\("A spin must be specified", f\)', 'raise DumpError("A spin must be specified")', "C08-R6")
 T("C08", "rename-format-module", "iodata/api.py", r"\bformat_module\b", "fmt_mod", count=0)
 # ----------------------------------------------------------------------------- C09
@@ -134,7 +137,10 @@ T("C09", "new-dict-then-store", F + "wfx.py", r'(def dump_one\(f: TextIO, data: 
 M("C10", "table-delete-label", F + "molden.py", r'    \(2, "c"\): \["xx", "yy", "zz", "xy", "xz", "yz"\],', '    (2, "c"): ["xx", "yy", "zz", "xy", "xz"],', "C10-R1")
 M("C10", "table-duplicate-label", F + "wfn.py", r"    \(2, 'c'\): \['xx', 'yy', 'zz', 'xy', 'xz', 'yz'\],", "    (2, 'c'): ['xx', 'yy', 'zz', 'xy', 'xz', 'xz'],", "C10-R1")
 M("C10", "table-flip-sign", F + "molden.py", r'    \(2, "c"\): \["xx", "yy", "zz", "xy", "xz", "yz"\],', '    (2, "c"): ["xx", "yy", "zz", "-xy", "xz", "yz"],', "C10-R6")
-M("C10", "drop-duplicate-guard", "iodata/convert.py", r'    if len\(conv2\) != len\(set\(conv2\)\):\n        raise ValueError\("Argument conv2 contains duplicates\."\)\n', "", "C10-R2")
+T("C10", "drop-redundant-duplicate-guard", "iodata/convert.py", r'    if len\(conv2\) != len\(set\(conv2\)\):\n        raise ValueError\("Argument conv2 contains duplicates\."\)\n', "")
+M("C10", "drop-both-duplicate-guards", "iodata/convert.py", r'    if len\(conv1\) != len\(set\(conv1\)\):\n        raise ValueError\("Argument conv1 contains duplicates\."\)\n    if len\(conv2\) != len\(set\(conv2\)\):\n        raise ValueError\("Argument conv2 contains duplicates\."\)\n', "", "C10-R2")
+M("C10", "sets-check-one-sided", "iodata/convert.py", r"    if set\(conv1\) != set\(conv2\):", "    if set(conv2).difference(conv1):", "C10-R2", also=[(r'    if len\(conv2\) != len\(set\(conv2\)\):\n        raise ValueError\("Argument conv2 contains duplicates\."\)\n', "")])
+T("C10", "index-via-dict", "iodata/convert.py", r"permutation = \[conv1\.index\(el2\) for el2 in conv2\]", "permutation = [{el1: i for i, el1 in enumerate(conv1)}[el2] for el2 in conv2]")
 M("C10", "offset-from-signs", "iodata/convert.py", r"offset = len\(permutation\)", "offset = len(signs) - 1", "C10-R4")
 M("C10", "drop-sign-product", "iodata/convert.py", r"signs = \[signs1\[i\] \* sign2 for i, sign2 in zip\(permutation, signs2\)\]", "signs = [sign2 for i, sign2 in zip(permutation, signs2)]", "C10-R3")
 M("C10", "index-wrong-direction", "iodata/convert.py", r"permutation = \[conv1\.index\(el2\) for el2 in conv2\]", "permutation = [conv2.index(el1) for el1 in conv1]", "C10-R3")
